@@ -306,9 +306,10 @@ def run(pid, tier, seed, t0):
     import x_duplex, x_tlsstream
     duplex_stage = x_duplex.stage(pid, tier, seed, verdict)
     tls_stage = x_tlsstream.stage(pid, tier, seed, verdict)
+    upgrade_stage = __import__("x_upgrade").stage(pid, tier, seed, verdict)   # Upgrade.tla: U2, tunnel bytes after a 101 incl. early bytes
     code, n_unlisted = verdict.finish()
     coverage = {
-        "sniffing_rewind_assembly": sniff, "duplex_transport": duplex_stage, "tls_stream_model": tls_stage,
+        "sniffing_rewind_assembly": sniff, "duplex_transport": duplex_stage, "tls_stream_model": tls_stage, "upgrade_model": upgrade_stage,
         "states": mc.distinct, "transitions": mc.generated, "model_depth": mc.depth,
         "model_config": cfg["mc"], "model_wall_s": round(mc.wall, 1),
         "traces_validated_against_impl": st["nseq"],
@@ -344,6 +345,8 @@ def replay(pid, path):
     if _k == "tlsstream-ops":
         import x_tlsstream
         return x_tlsstream.replay(pid, obj)
+    if _k == "upgrade-scenario":
+        return __import__("x_upgrade").replay(pid, obj)
     if _k == "duplex-trace":
         import x_duplex
         return x_duplex.replay(pid, obj)
